@@ -13,6 +13,7 @@ Python equivalents of various excel functions
 import math
 import sys
 from decimal import Decimal, ROUND_DOWN, ROUND_HALF_UP, ROUND_UP
+from fractions import Fraction
 
 import numpy as np
 
@@ -73,6 +74,18 @@ def atan2_(x_num, y_num):
     return math.atan2(y_num, x_num)
 
 
+def _multiples(number, significance, rounder):
+    """significance * rounder(number / significance), on the shortest decimal
+    renderings: in binary 0.3 / 0.1 is 2.9999999999999996 and 3 * 0.1 is
+    0.30000000000000004"""
+    if isinstance(number, int) and isinstance(significance, int):
+        return significance * rounder(Fraction(number, significance))
+    significance = Decimal(repr(float(significance)))
+    result = significance * rounder(
+        Decimal(repr(float(number))) / significance)
+    return float(result)
+
+
 @excel_math_func
 def ceiling(number, significance):
     # Excel reference: https://support.microsoft.com/en-us/office/
@@ -84,9 +97,9 @@ def ceiling(number, significance):
         return 0
 
     if number < 0 < significance:
-        return significance * int(number / significance)
+        return _multiples(number, significance, int)
     else:
-        return significance * math.ceil(number / significance)
+        return _multiples(number, significance, math.ceil)
 
 
 @excel_math_func
@@ -99,7 +112,7 @@ def ceiling_math(number, significance=1, mode=0):
     significance = abs(significance)
     if mode and number < 0:
         significance = -significance
-    return significance * math.ceil(number / significance)
+    return _multiples(number, significance, math.ceil)
 
 
 @excel_math_func
@@ -110,7 +123,7 @@ def ceiling_precise(number, significance=1):
         return 0
 
     significance = abs(significance)
-    return significance * math.ceil(number / significance)
+    return _multiples(number, significance, math.ceil)
 
 
 def conditional_format_ids(*args):
@@ -169,7 +182,7 @@ def floor(number, significance):
     if significance == 0:
         return DIV0
 
-    return significance * math.floor(number / significance)
+    return _multiples(number, significance, math.floor)
 
 
 @excel_math_func
@@ -182,7 +195,7 @@ def floor_math(number, significance=1, mode=0):
     significance = abs(significance)
     if mode and number < 0:
         significance = -significance
-    return significance * math.floor(number / significance)
+    return _multiples(number, significance, math.floor)
 
 
 @excel_math_func
@@ -193,7 +206,7 @@ def floor_precise(number, significance=1):
         return 0
 
     significance = abs(significance)
-    return significance * math.floor(number / significance)
+    return _multiples(number, significance, math.floor)
 
 
 @excel_math_func
